@@ -11,45 +11,89 @@ def litSeq : Str → Glob
   | c :: r => .seq (.lit c) (litSeq r)
 
 /-- "The same text", up to case when the mode folds case. -/
-def sameText (m : Mode) (t s : Str) : Prop :=
-  List.Forall₂ (fun x c => chEq m.nocase c x = true) t s
+def sameText (m : Mode) : Str → Str → Prop
+  | [], [] => True
+  | x :: t, c :: s => chEq m.nocase c x = true ∧ sameText m t s
+  | _, _ => False
 
 theorem chEq_false_iff (c x : Rune) : chEq false c x = true ↔ x = c := by
   simp [chEq, variants, eq_comm]
 
 theorem sameText_eq {m : Mode} (h : m.nocase = false) (t s : Str) : sameText m t s ↔ t = s := by
-  unfold sameText
-  rw [h]
-  constructor
-  · intro hf
-    induction hf with
-    | nil => rfl
-    | cons hx _ ih => rw [(chEq_false_iff _ _).mp hx, ih]
-  · rintro rfl
-    induction t with
-    | nil => exact .nil
-    | cons x t ih => exact .cons ((chEq_false_iff _ _).mpr rfl) ih
+  induction t generalizing s with
+  | nil => cases s <;> simp [sameText]
+  | cons x t ih =>
+    cases s with
+    | nil => simp [sameText]
+    | cons c s => simp [sameText, h, chEq_false_iff, ih]
 
 theorem GDen_litSeq (m : Mode) (s : Str) : ∀ (b : Bool) (t : Str),
     GDen m (litSeq s) b t ↔ sameText m t s := by
   induction s with
   | nil =>
     intro b t
-    simp only [litSeq, GDen, sameText]
-    constructor
-    · rintro rfl; exact .nil
-    · intro h; cases h; rfl
+    cases t <;> simp [litSeq, GDen, sameText]
   | cons c r ih =>
     intro b t
-    simp only [litSeq, GDen, sameText]
+    simp only [litSeq, GDen]
     constructor
     · rintro ⟨s1, s2, rfl, ⟨x, rfl, hx⟩, h2⟩
-      exact .cons hx ((ih _ _).mp h2)
+      exact ⟨hx, (ih _ _).mp h2⟩
     · intro h
-      cases h with
-      | cons hx hr =>
-        rename_i x t'
+      cases t with
+      | nil => simp [sameText] at h
+      | cons x t' =>
+        obtain ⟨hx, hr⟩ := h
         exact ⟨[x], t', rfl, ⟨x, rfl, hx⟩, (ih _ _).mpr hr⟩
+
+/-! ### unfolding lemmas -/
+
+theorem hasMetaAux_cons (ob : Bool) (c : Rune) (rest : Str) :
+    hasMetaAux ob (c :: rest) =
+      if c = cBS then
+        (match rest with
+         | [] => false
+         | _ :: rest' => hasMetaAux ob rest')
+      else if c = cStar ∨ c = cQuest then true
+      else if c = cLB then hasMetaAux true rest
+      else if c = cRB then (if ob then true else hasMetaAux ob rest)
+      else hasMetaAux ob rest := by
+  conv => lhs; rw [hasMetaAux.eq_def]
+  rfl
+
+theorem parseSeq_cons (m : Mode) (fuel : Nat) (prev c : Rune) (rest : Str) :
+    parseSeq m (fuel + 1) prev (c :: rest) =
+    if c = cBS then
+      match rest with
+      | [] => .error .trailingBackslash
+      | d :: rest' => andThenG (.lit d) (parseSeq m fuel d rest')
+    else if c = cQuest ∧ !(m.ext && rest.head? == some cLP) then andThenG .any (parseSeq m fuel c rest)
+    else if c = cStar ∧ !(m.ext && rest.head? == some cLP) then
+      if m.filenames && !m.noglobstar && (prev == 0 || prev == cSlash) && rest.head? == some cStar
+          && (rest.tail.isEmpty || rest.tail.head? == some cSlash) then
+        match rest.tail with
+        | _ :: rest3 => andThenG (.globstar true) (parseSeq m fuel cSlash rest3)
+        | [] => .ok (.seq (.globstar false) .eps)
+      else andThenG .star (parseSeq m fuel c rest)
+    else if c = cLB then
+      match scanBracket m.filenames rest with
+      | .notBracket => andThenG (.lit cLB) (parseSeq m fuel cLB rest)
+      | .malformed e => .error e
+      | .ok neg items rest' => andThenG (.bracket neg items) (parseSeq m fuel cRB rest')
+    else if m.ext && isExtOp c && rest.head? == some cLP then
+      match scanGroup m.filenames (rest.length + 1) 0 [] [] rest.tail with
+      | .error e => .error e
+      | .ok none => andThenG (.lit c) (parseSeq m fuel c rest)
+      | .ok (some (alts, rest')) =>
+        match alts.mapM (parseSeq m fuel cLP) with
+        | .error e => .error e
+        | .ok gs => andThenG (.ext c (altGlob gs)) (parseSeq m fuel cRP rest')
+    else andThenG (.lit c) (parseSeq m fuel c rest) := by
+  conv => lhs; rw [parseSeq.eq_def]
+  rfl
+
+theorem parseSeq_nil (m : Mode) (fuel : Nat) (prev : Rune) : parseSeq m (fuel + 1) prev [] = .ok .eps := by
+  conv => lhs; rw [parseSeq.eq_def]
 
 /-! ### QuoteMeta -/
 
@@ -60,22 +104,23 @@ theorem quoteMeta_length_ge (s : Str) : s.length ≤ (quoteMeta s).length := by
     simp only [quoteMeta]
     split <;> simp <;> omega
 
+theorem special_ne {c : Rune} (h : isQuoteMetaSpecial c = false) :
+    c ≠ cStar ∧ c ≠ cQuest ∧ c ≠ cLB ∧ c ≠ cBS := by
+  simp only [isQuoteMetaSpecial, Bool.or_eq_false_iff, beq_eq_false_iff_ne] at h
+  exact ⟨h.1.1.1, h.1.1.2, h.1.2, h.2⟩
+
 theorem hasMetaAux_quoteMeta (s : Str) : hasMetaAux false (quoteMeta s) = false := by
   induction s with
   | nil => simp [quoteMeta, hasMetaAux]
   | cons c r ih =>
     simp only [quoteMeta]
     by_cases hc : isQuoteMetaSpecial c = true
-    · simp only [hc, if_true, hasMetaAux]
+    · simp only [hc, if_true, hasMetaAux_cons]
       simpa using ih
-    · simp only [hc]
-      have hc' : isQuoteMetaSpecial c = false := by simpa using hc
-      simp only [isQuoteMetaSpecial, Bool.or_eq_false_iff, beq_eq_false_iff_ne] at hc'
-      obtain ⟨⟨⟨h1, h2⟩, h3⟩, h4⟩ := hc'
-      simp only [if_false, Bool.false_eq_true, hasMetaAux, h1, h2, h3, h4, false_or]
-      split
-      · exact ih
-      · exact ih
+    · have hc' : isQuoteMetaSpecial c = false := by simpa using hc
+      obtain ⟨h1, h2, h3, h4⟩ := special_ne hc'
+      simp only [hc, if_false, Bool.false_eq_true, hasMetaAux_cons, h1, h2, h3, h4, false_or, ih]
+      simp
 
 theorem head_quoteMeta_lp (r : Str) : ((quoteMeta r).head? == some cLP) = (r.head? == some cLP) := by
   cases r with
@@ -87,7 +132,9 @@ theorem head_quoteMeta_lp (r : Str) : ((quoteMeta r).head? == some cLP) = (r.hea
       have : d ≠ cLP := by
         intro h; subst h; revert hd; decide
       have h2 : cBS ≠ cLP := by decide
-      simp [this, h2]
+      have e1 : (cBS == cLP) = false := by simpa using h2
+      have e2 : (d == cLP) = false := by simpa using this
+      simp [e1, e2]
     · simp [hd]
 
 theorem parseSeq_quoteMeta (m : Mode) (s : Str) :
@@ -98,7 +145,7 @@ theorem parseSeq_quoteMeta (m : Mode) (s : Str) :
     intro fuel prev hf _
     cases fuel with
     | zero => simp at hf
-    | succ f => simp [quoteMeta, parseSeq, litSeq]
+    | succ f => simp [quoteMeta, parseSeq_nil, litSeq]
   | cons c r ih =>
     intro fuel prev hf hext
     cases fuel with
@@ -116,12 +163,10 @@ theorem parseSeq_quoteMeta (m : Mode) (s : Str) :
             simp only [hasExtOpener, Bool.or_eq_false_iff] at h
             exact h.2
       by_cases hc : isQuoteMetaSpecial c = true
-      · simp only [quoteMeta, hc, if_true, parseSeq, litSeq]
-        rw [ih f c hf' hext']
+      · simp only [quoteMeta, hc, if_true, parseSeq_cons, litSeq]
+        rw [ih f c hf' hext']; rfl
       · have hc' : isQuoteMetaSpecial c = false := by simpa using hc
-        have hne := hc'
-        simp only [isQuoteMetaSpecial, Bool.or_eq_false_iff, beq_eq_false_iff_ne] at hne
-        obtain ⟨⟨⟨h1, h2⟩, h3⟩, h4⟩ := hne
+        obtain ⟨h1, h2, h3, h4⟩ := special_ne hc'
         have hgrp : (m.ext && isExtOp c && ((quoteMeta r).head? == some cLP)) = false := by
           rw [head_quoteMeta_lp]
           cases hext with
@@ -139,46 +184,8 @@ theorem parseSeq_quoteMeta (m : Mode) (s : Str) :
                 have hd' : (d == cLP) = true := by simpa using hd
                 simp only [hd', Bool.and_true] at this
                 simp [this]
-        simp only [quoteMeta, hc, if_false, Bool.false_eq_true, parseSeq, litSeq, h4, h2, h1, h3,
+        simp only [quoteMeta, hc, if_false, Bool.false_eq_true, parseSeq_cons, litSeq, h4, h2, h1, h3,
           false_and, hgrp]
-        rw [ih f c hf' hext']
-
-/-! ### Patterns without metacharacters -/
-
-theorem cut2_spec (a b : Rune) (s name after : Str) (h : cut2 a b s = some (name, after)) :
-    s = name ++ a :: b :: after := by
-  induction s generalizing name with
-  | nil => simp [cut2] at h
-  | cons x s ih =>
-    cases s with
-    | nil => simp [cut2] at h
-    | cons y s' =>
-      simp only [cut2] at h
-      split at h
-      · rename_i hxy
-        obtain ⟨rfl, rfl⟩ := hxy
-        simp at h; obtain ⟨rfl, rfl⟩ := h
-        rfl
-      · cases hc : cut2 a b (y :: s') with
-        | none => simp [hc] at h
-        | some p =>
-          obtain ⟨n, r⟩ := p
-          simp [hc] at h
-          obtain ⟨rfl, rfl⟩ := h
-          rw [ih n hc]; rfl
-
-/-- Once a `[` has been seen, an unescaped `]` (one not preceded by a backslash) is a metacharacter. -/
-theorem hasMetaAux_close (pre post : Str) (x : Rune) (hx : x ≠ cBS) :
-    hasMetaAux true (pre ++ x :: cRB :: post) = true := by
-  induction pre using List.rec with
-  | nil =>
-    simp only [List.nil_append, hasMetaAux, hx, if_false]
-    split
-    · rfl
-    · split
-      · simp [hasMetaAux]
-        intro h; exact absurd h (by decide)
-      · split <;> simp [hasMetaAux] <;> (intro h; exact absurd h (by decide))
-  | cons a pre ih => sorry
+        rw [ih f c hf' hext']; rfl
 
 end ShVerif.L3
